@@ -291,9 +291,9 @@ class ItemFactory:
             file_item = self.get_or_create_file_item_from_source(new_source, config=config)
 
             # Get the definition items for the FileItem and return the new item
-            definition_items = {
-                it.name: it for it in file_item.create_definition_items(item_factory=self, config=config)
-            }
+            definition_items = CaseInsensitiveDict(
+                (it.name, it) for it in file_item.create_definition_items(item_factory=self, config=config)
+            )
             self.item_cache.update(definition_items)
 
             if name in definition_items:
